@@ -105,16 +105,20 @@ theorem aol_accept_iff_documented (dec : Bytes → Option Bytes) (m : Aol.Msg) :
 /-! ## PNFT -/
 
 def DocumentedPnft (dec : Bytes → Option Bytes) : PnftMsg → Prop
-  | .createDenom id name symbol _ _ _ _ creator => id ≠ [] ∧ name ≠ [] ∧ symbol ≠ [] ∧ DocAddr dec creator
+  | .createDenom id name symbol _ _ _ _ creator => id ≠ [] ∧ (0x00 : UInt8) ∉ id ∧ name ≠ [] ∧ symbol ≠ [] ∧ DocAddr dec creator
   | .updateDenom id _ _ _ _ _ _ updater => id ≠ [] ∧ DocAddr dec updater
   | .deleteDenom id remover => id ≠ [] ∧ DocAddr dec remover
   | .transferDenom id sender receiver => id ≠ [] ∧ DocAddr dec sender ∧ DocAddr dec receiver
-  | .mintPNFT denomId id name _ _ _ _ creator => denomId ≠ [] ∧ id ≠ [] ∧ name ≠ [] ∧ DocAddr dec creator
+  | .mintPNFT denomId id name _ _ _ _ creator =>
+    denomId ≠ [] ∧ id ≠ [] ∧ name ≠ [] ∧ (0x00 : UInt8) ∉ denomId ∧ (0x00 : UInt8) ∉ id ∧ DocAddr dec creator
   | .transferPNFT denomId id sender receiver => denomId ≠ [] ∧ id ≠ [] ∧ DocAddr dec sender ∧ DocAddr dec receiver
   | .burnPNFT denomId id burner => denomId ≠ [] ∧ id ≠ [] ∧ DocAddr dec burner
 
 theorem nonEmpty_iff (b : Bytes) (w : String) : nonEmpty b w = .ok () ↔ b ≠ [] := by
   unfold nonEmpty; by_cases h : b = [] <;> simp [h]
+
+theorem noNul_iff (b : Bytes) : noNul b = .ok () ↔ (0x00 : UInt8) ∉ b := by
+  unfold noNul; by_cases h : b.contains 0x00 = true <;> simp_all
 
 theorem pnftAddr_iff (dec : Bytes → Option Bytes) (a : Bytes) : pnftAddr dec a = .ok () ↔ DocAddr dec a := by
   unfold pnftAddr DocAddr
@@ -131,7 +135,7 @@ theorem pnft_accept_iff_documented (dec : Bytes → Option Bytes) (hd : dec [] =
     pnftValidateBasic dec m = .ok () ↔ DocumentedPnft dec m := by
   have ne : ∀ a, DocAddr dec a → a ≠ [] := PNFT_addr_nonempty_redundant dec hd
   cases m <;>
-    simp only [pnftValidateBasic, DocumentedPnft, seq_ok_iff, nonEmpty_iff, pnftAddr_iff] <;>
+    simp only [pnftValidateBasic, DocumentedPnft, seq_ok_iff, nonEmpty_iff, noNul_iff, pnftAddr_iff] <;>
     constructor <;> intro h <;> simp_all <;> (try (intro he; subst he; simp_all [DocAddr]))
 
 /-! ## DID -/
